@@ -56,8 +56,33 @@ def run(ids):
         out[name] = meta["detected"]
     return out
 
+def table():
+    """markdown table of the last recorded runs (for DESIGN.md section 10.4)"""
+    import re
+    print("| change | needs | T | C | P | failing input |")
+    print("|--------|-------|---|---|---|---------------|")
+    for name in sorted(os.listdir(SD)):
+        mp = os.path.join(SD, name, "meta.json")
+        if not os.path.exists(mp):
+            continue
+        m = json.load(open(mp))
+        lr = m.get("last_run", {})
+        summ = [l for l in lr.get("lines", []) if l.startswith("[")]
+        t = c = pv = "?"
+        if summ:
+            mm = re.search(r"T=(\S+) C=(\S+) P=(\d+) unlisted", summ[-1])
+            if mm:
+                t = "broke" if mm.group(1) != "ok" else "ok"
+                c = "broke" if mm.group(2) != "ok" else "ok"
+                pv = mm.group(3)
+        print(f"| {name} | {m.get('needs', '')[:100]} | {t} | {c} | {pv} | "
+              f"{'yes' if m.get('with_failing_input') else 'no'} |")
+
+
 if __name__ == "__main__":
-    if sys.argv[1] == "add":
+    if sys.argv[1] == "table":
+        table()
+    elif sys.argv[1] == "add":
         add(*sys.argv[2:6])
     else:
         run(sys.argv[2:])
